@@ -31,7 +31,7 @@ def _digests(args):
     for i in range(start, start + n):
         scn = mod.generate(gen.rng_for(seed, pid, i), "quick")
         res = mod.execute(scn)
-        vio = sorted((v["rule"], v["classifier"]) for v in res.get("violations") or [])
+        vio = sorted([v["rule"], v["classifier"]] for v in res.get("violations") or [])  # (lists: what a JSON round trip gives)
         out.append([i, res.get("digest"), vio])
     return out
 
